@@ -4,6 +4,7 @@ import LeptosModel.Proofs.ReactiveConv
 import LeptosModel.Proofs.ReactiveLog
 import LeptosModel.Proofs.ReactiveWake
 import LeptosModel.Proofs.ReactiveSubs
+import LeptosModel.Proofs.ReactiveGlitch
 /-!
 # C02 — effects converge to the current state under every task schedule
 -/
@@ -355,5 +356,137 @@ example :
     WF p = true ∧ ((run p ops).get 0).subs = [1, 3, 4] ∧
     wokeIds ((step p (run p ops) (.set 0 7)).1.log.drop (run p ops).log.length) = [4, 3] ∧
     directOnly (run p ops) 0 3 = true ∧ directOnly (run p ops) 0 4 = false := by decide +kernel
+
+/-! ## no glitch
+
+"Every value an effect reads during one run equals the from-scratch value for the signal state at that
+moment."  The log does not record states, so the statement is about the log as a whole: there is a trace
+of signal environments, one before each event, which starts at the signal values of the state before,
+ends at those of the state after, changes ONLY at a `set i` event and only at signal `i`, and such that
+every `rdv self x v` event — a tracked read made by an effect body, or by a memo body pulled while it
+runs — carries `v = scratch` of `x` for the environment current at that position. -/
+
+/-- only the memo bodies need tracked reads (an untracked read logs no `rdv`) -/
+def memosNoUntracked (p : Prog) : Bool :=
+  p.all fun d => match d with | .memo b => b.noUntracked | _ => true
+
+/-- the piece of log `l` is consistent with a trace of signal environments from `env0` to `envN` -/
+def LogConsistent (p : Prog) (env0 : Nat → Int) (l : List Ev) (envN : Nat → Int) : Prop :=
+  ∃ envs : Nat → Nat → Int,
+    (∀ i v0, p[i]? = some (.sig v0) → envs 0 i = env0 i) ∧
+    (∀ i v0, p[i]? = some (.sig v0) → envs l.length i = envN i) ∧
+    ∀ k (hk : k < l.length),
+      (∀ i v0, p[i]? = some (.sig v0) → l[k] ≠ .set i → envs (k + 1) i = envs k i) ∧
+      (∀ self x v, l[k] = .rdv self x v → v = scratch p (envs k) (fuelFor p) x)
+
+def consEnv (env : Nat → Int) (envs : Nat → Nat → Int) : Nat → Nat → Int
+  | 0 => env
+  | k + 1 => envs k
+
+theorem GlitchFree.consistent {p : Prog} {env env' : Nat → Int} {l : List Ev}
+    (h : GlitchFree p env l env') : LogConsistent p env l env' := by
+  induction h with
+  | @nil env env' h =>
+    exact ⟨fun _ => env, fun _ _ _ => rfl, fun i v hd => h i v hd, fun k hk => absurd hk (Nat.not_lt_zero _)⟩
+  | @rdv env env' self x v rest hv _ ih =>
+    obtain ⟨envs, h0, hN, hstep⟩ := ih
+    refine ⟨consEnv env envs, fun _ _ _ => rfl, hN, fun k hk => ?_⟩
+    cases k with
+    | zero =>
+      refine ⟨fun i v0 hd _ => h0 i v0 hd, fun self' x' v' he => ?_⟩
+      simp only [List.getElem_cons_zero, Ev.rdv.injEq] at he
+      obtain ⟨_, rfl, rfl⟩ := he
+      exact hv.symm
+    | succ k => exact hstep k (by simpa using hk)
+  | @set env env1 env' id rest hs _ ih =>
+    obtain ⟨envs, h0, hN, hstep⟩ := ih
+    refine ⟨consEnv env envs, fun _ _ _ => rfl, hN, fun k hk => ?_⟩
+    cases k with
+    | zero =>
+      refine ⟨fun i v0 hd hne => ?_, fun self' x' v' he => (by simp at he)⟩
+      have hid : i ≠ id := by intro hc; subst hc; exact hne rfl
+      exact (h0 i v0 hd).trans (hs i v0 hd hid).symm
+    | succ k => exact hstep k (by simpa using hk)
+  | @skip env env' ev rest hp _ ih =>
+    obtain ⟨envs, h0, hN, hstep⟩ := ih
+    refine ⟨consEnv env envs, fun _ _ _ => rfl, hN, fun k hk => ?_⟩
+    cases k with
+    | zero =>
+      refine ⟨fun i v0 hd _ => h0 i v0 hd, fun self' x' v' he => ?_⟩
+      exact absurd he (hp.1 self' x' v')
+    | succ k => exact hstep k (by simpa using hk)
+
+theorem memoTracked_of_memos {p : Prog} (ht : memosNoUntracked p = true) : MemoTracked p := by
+  intro m b hb
+  have hmem : NodeDef.memo b ∈ p := List.mem_of_getElem? hb
+  simp only [memosNoUntracked, List.all_eq_true] at ht
+  exact ht _ hmem
+
+/-- **C02 no glitch** (every WF program whose memo bodies use tracked reads, every history, every next
+operation, writer effects included): the log written by the operation is consistent with a trace of
+signal environments from the state before to the state after; every tracked read logged while an
+effect body (or a memo body it pulls) runs carries the from-scratch value for the signal state at that
+moment. -/
+theorem C02_no_glitch :
+    ∀ (p : Prog) (ops : List Op) (o : Op), WF p = true → memosNoUntracked p = true →
+      ∃ suf, (step p (run p ops) o).1.log = (run p ops).log ++ suf ∧
+        LogConsistent p (envOf (run p ops)) suf (envOf (step p (run p ops) o).1) := by
+  intro p ops o hwf ht
+  obtain ⟨suf, hl, hg⟩ := step_glitchFree hwf (memoTracked_of_memos ht) ops o
+  exact ⟨suf, hl, hg.consistent⟩
+
+/-- the same for the whole log of a history, from the initial signal values -/
+theorem C02_no_glitch_run :
+    ∀ (p : Prog) (ops : List Op), WF p = true → memosNoUntracked p = true →
+      LogConsistent p (envOf (initState p)) (run p ops).log (envOf (run p ops)) := by
+  intro p ops hwf ht
+  obtain ⟨suf, hl, hg⟩ := run_glitchFree hwf (memoTracked_of_memos ht) ops
+  have : (run p ops).log = suf := by rw [hl]; rfl
+  rw [this]
+  exact hg.consistent
+
+/-- **simple form**: an operation that logs no signal write (`read`, or `poll`/`idle` running effects whose
+bodies do not write) logs only reads of the from-scratch value for the state before the operation
+(which has the same signal values as the state after it) -/
+theorem C02_no_glitch_noset :
+    ∀ (p : Prog) (ops : List Op) (o : Op), WF p = true → memosNoUntracked p = true →
+      ∃ suf, (step p (run p ops) o).1.log = (run p ops).log ++ suf ∧
+        ((∀ i, Ev.set i ∉ suf) → ∀ self x v, Ev.rdv self x v ∈ suf →
+          v = specVal p (run p ops) x ∧ v = specVal p (step p (run p ops) o).1 x) := by
+  intro p ops o hwf ht
+  obtain ⟨suf, hl, hg⟩ := step_glitchFree hwf (memoTracked_of_memos ht) ops o
+  refine ⟨suf, hl, fun hn self x v hm => ?_⟩
+  have := hg.noset hn
+  have hv := this.2 self x v hm
+  exact ⟨hv, by rw [hv]; exact scratch_env_congr this.1 _ _⟩
+
+/-- the diamond: `a = s + 1`, `b = 2 * s`, an effect reading `a + b` -/
+def c02Diamond : Prog :=
+  [.sig 1, .memo (.add (.rd true 0) (.lit 1)), .memo (.mulc 2 (.rd true 0)),
+   .eff (.add (.rd true 1) (.rd true 2))]
+
+/-- non-vacuity: the log of the diamond under `idle, s := 5, idle`: the effect (node 3) reads `a, b = 2, 2`
+in its first run and `6, 10` in its second one - never the mixed pair `6, 2` -/
+example :
+    WF c02Diamond = true ∧ memosNoUntracked c02Diamond = true ∧
+    (run c02Diamond [.idle, .set 0 5, .idle]).log =
+      [.ran 3, .ran 1, .rdv 1 0 1, .changed 1, .rdv 3 1 2, .ran 2, .rdv 2 0 1, .changed 2, .rdv 3 2 2,
+       .set 0, .woke 3,
+       .ran 1, .rdv 1 0 5, .changed 1, .woke 3, .ran 3, .rdv 3 1 6, .ran 2, .rdv 2 0 5, .changed 2,
+       .rdv 3 2 10] := by decide +kernel
+
+/-- … and `LogConsistent` is not trivially true: a log in which the effect reads the stale `b = 2` after
+`s := 5` is rejected (`b` is `2` only for `s = 1`, but then `a` is `2`, not `6`) -/
+example : ¬ ∃ env', LogConsistent c02Diamond (envOf (run c02Diamond [.idle]))
+    [.set 0, .rdv 3 1 6, .rdv 3 2 2] env' := by
+  rintro ⟨env', envs, _, _, hstep⟩
+  have h1 := (hstep 1 (by decide)).2 3 1 6 rfl
+  have h2 := (hstep 2 (by decide)).2 3 2 2 rfl
+  have e12 := (hstep 1 (by decide)).1 0 1 rfl (by simp)
+  have ha : ∀ env, scratch c02Diamond env (fuelFor c02Diamond) 1 = env 0 + 1 := fun _ => rfl
+  have hb : ∀ env, scratch c02Diamond env (fuelFor c02Diamond) 2 = 2 * env 0 := fun _ => rfl
+  rw [ha] at h1
+  rw [hb, e12] at h2
+  omega
 
 end Leptos.Reactive
